@@ -150,7 +150,7 @@ def extend(rep, prop):
             mp = os.path.join(sdir, name, "meta.json")
             if os.path.exists(mp):
                 meta = json.load(open(mp))
-                if prop in meta.get("checks_fired", {}) and meta.get("confirmed"):
+                if prop in meta.get("caught_by", [meta.get("property")]) and prop in meta.get("checks_fired", {}) and meta.get("confirmed"):
                     seeds.append((name, os.path.join(sdir, name, "patch.diff")))
     # behaviour-preserving refactorings written independently of the checks (selftest/refactorings/*.diff):
     # those that touch a source file this property's analysis reads must leave the check silent
